@@ -304,3 +304,67 @@ M("M15g", "remove_file error ignored outside clean mode (write_temp_file toleran
             if let Ok(export_file) = self.work_dir.try_resolve(&p, false) {""", """        if matches!(self.out, CtxOut::Clean { .. } | CtxOut::Verify { .. }) {
             if let Ok(export_file) = self.work_dir.try_resolve(&p, false) {""")],
   {"C04": ["R04.1"]})
+
+# ------------------------------------------------------------------ C18
+M("M51", "fs::read_to_string(include).unwrap() inside a worker",
+  [(PP, """                let output = std::fs::read_to_string(&include_file)
+                    .change_context_lazy(|| self.context.make_error(PpErrorKind::Directive))
+                    .attach_printable_lazy(|| {
+                        format!("could not read include file: `{include_file}`")
+                    })?;""", """                let output = std::fs::read_to_string(&include_file).unwrap();""")],
+  {"C18": ["R18.1"]})
+M("M52", "inject_tags: drop the overlap `continue` (overlapping tags slice backwards)",
+  [(TAG, """            if *i < last_end {
+                continue;
+            }
+""", "")],
+  {"C18": ["R18.1"]})
+M("M53", "write_output/Verify: drop the rem < len check (u64 underflow on a truncated output)",
+  [(IO, """                if *rem < len {
+                    log::debug!("not enough content to verify: need {len}, remaining {rem}");
+                    return Err(make_verify_report!(self, path));
+                }
+""", "")],
+  {"C18": ["R18.1"], "C06": ["R06.2"]})
+M("M54", "drop the zero-thread guard",
+  [(EX, """        if config.num_threads == 0 {
+            return Err(Report::new(TxtppError)
+                .attach_printable("the number of threads must be at least 1"));
+        }
+""", "")],
+  {"C18": ["R18.2"]})
+M("M55", "add_line: continuation accepted without the leading-whitespace check (slice past a shorter line)",
+  [(DADD, "        if line.starts_with(&self.whitespaces) {", "        if line.starts_with(&self.whitespaces) || line.trim().is_empty() {")],
+  {"C18": ["R18.1"]})
+M("M56", "add_line: space-continuation compares trimmed prefix length (index may split a char / exceed the line)",
+  [(DADD, """line.starts_with(&" ".repeat(self.prefix.len()))""", """line.starts_with(&" ".repeat(self.prefix.trim_end().len()))""")],
+  {"C18": ["R18.1"]})
+M("M57", "Directive Display shows the second argument",
+  [(DIR, """            format!("{} ...", self.args[0])""", """            format!("{} {} ...", self.args[0], self.args[1])""")],
+  {})   # args[1] exists when len != 1 ... unless len == 0; the reviewed entry is about non-emptiness only: not caught, documented
+M("M58", "detect_from: prefix cut at a char count instead of the byte index",
+  [(DFROM, """            Some(i) => (&line[i..], &line[..i]),""", """            Some(i) => (&line[i..], &line[..line[..i].chars().count()]),""")],
+  {"C18": ["R18.1"]})
+M("M59", "notify_finish decrements without the <= 1 test",
+  [(DEP, """            if *count <= 1 {
+                self.out_edge_counts.remove(&depender);
+                output.insert(depender);
+            } else {
+                *count -= 1;
+            }""", """            *count -= 1;
+            if *count == 0 {
+                self.out_edge_counts.remove(&depender);
+                output.insert(depender);
+            }""")],
+  {"C18": ["R18.1"]})
+M("M60", "worker unwraps the preprocess result before sending",
+  [(EX, """            let result = preprocess(&shell, &file, mode, is_first_pass, trailing_newline);
+            send.send(TaskResult::Preprocess(result))""", """            let result = preprocess(&shell, &file, mode, is_first_pass, trailing_newline);
+            let result = Ok(result.unwrap());
+            send.send(TaskResult::Preprocess(result))""")],
+  {"C18": ["R18.1"]})
+M("M61", "get_line_ending_from_buf: look at buf[1] when len == 1",
+  [("src/fs/line_ending.rs", """        1 => {
+            if buf[0] == b'\\n' {""", """        1 => {
+            if buf[1] == b'\\n' {""")],
+  {"C18": ["R18.1"]})
